@@ -88,6 +88,10 @@ def generate(prop, rng, seed, index, tier):
     if not started and rng.random() < 0.7:
         ops.append({'t': t, 'op': 'start'})
         final_started = True
+    if rng.random() < 0.15:
+        # a consumer that raises for one element: the polling loop dies of it; the source stays 'started' until
+        # it is stopped, and the next effective start() must begin polling again
+        sink['fail_at'] = rng.randrange(0, nitems)
     maxlat = max([x or 0 for x in sink.get('lat', [0])] + [0])
     sc = {'format': 1, 'family': 'lifecycle', 'property': 'C18', 'seed': seed, 'index': index, 'source': src,
           'ops': ops, 'sink': sink, 'via_map': False, 'final_started': final_started,
@@ -132,8 +136,11 @@ def evaluate(prop, sc, want_trace=False):
     V = []
     s = sc['source']
     typ = s['type']
+    failing = sc['sink'].get('fail_at') is not None and any(e[2] == 'sink_raised' for e in ev)
     for e in ev:
         if e[2] in ('task_exc', 'bg_exc'):
+            if failing and any('injected' in str(x) for x in e[3:]):
+                continue        # (the consumer's exception ends the polling loop: that is the scenario)
             V.append(Violation('C18', 'C18.two_loops', e[0], 'the source died: %r' % (e[3:],), node_op=typ))
             break
 
@@ -180,10 +187,30 @@ def evaluate(prop, sc, want_trace=False):
                                    '%s: a new polling cycle (%s %r) began at t=%g after stop() and before the next start()'
                                    % (typ, e[3], e[4], e[1]), node_op=typ))
                 break
+    # (b') ... and the next start() does begin one: after the last effective start() (one that follows a stop())
+    #      a polling cycle begins - at once when no loop is alive (never started, ended, or died of a consumer's
+    #      exception), or when the suspended old loop wakes up
+    if not V and status == 'ok' and any(e[2] == 'end' for e in ev):
+        last_start = None
+        stopped = not s.get('start_true')
+        for e in ev:
+            if e[2] == 'start_call':
+                if stopped:
+                    last_start = e
+                stopped = False
+            elif e[2] == 'stop_call':
+                stopped = True
+                last_start = None
+        # (a loop that carried on after that start() and then died of the consumer's exception owes nothing more)
+        if last_start is not None and not any(e[2] == 'cycle' and e[0] > last_start[0] for e in ev) \
+                and not any(e[2] == 'sink_raised' and e[0] > last_start[0] for e in ev):
+            V.append(Violation('C18', 'C18.emit_after_stop', len(ev) - 1,
+                               '%s: start() at t=%g (after a stop()) was the last call, yet no polling cycle began in the %g s that followed'
+                               % (typ, last_start[1], ev[-1][1] - last_start[1]), node_op=typ))
     # content
     emitted = [e[4] for e in ev if e[2] == 'sink_start']
     ended = any(e[2] == 'end' for e in ev) and status == 'ok'
-    if not V and typ == 'iterable' and s.get('one_shot', True):
+    if not V and typ == 'iterable' and s.get('one_shot', True) and not failing:
         items = s['items']
         if emitted != items[:len(emitted)]:
             V.append(Violation('C18', 'C18.iterable_items', len(ev) - 1,
@@ -219,7 +246,7 @@ def evaluate(prop, sc, want_trace=False):
                                    'from_iterable began a new pass over its iterable at t=%g while emission #%d was still being handled'
                                    % (e[1], busy), node_op='from_iterable'))
                 break
-    if not V and typ == 'textfile':
+    if not V and typ == 'textfile' and not failing:
         text = ''.join(o['data'] for _, o in sorted(enumerate(sc['ops']), key=lambda p: (p[1]['t'], p[0]))
                        if o['op'] == 'append' and not o.get('skip'))
         expected = [r + '\n' for r in text.split('\n')[:-1]]
@@ -258,6 +285,12 @@ def evaluate(prop, sc, want_trace=False):
     calls = [e[2] for e in ev if e[2] in ('start_call', 'stop_call')]
     if 'stop_call' in calls and 'start_call' in calls[calls.index('stop_call'):] and emitted:
         out.probes['restart_with_data'] = 1
+    if failing:
+        out.probes['polling_loop_died_of_a_consumer_exception'] = 1
+        fs = [e[0] for e in ev if e[2] == 'sink_raised'][0]
+        later = [e[2] for e in ev if e[0] > fs and e[2] in ('start_call', 'stop_call')]
+        if 'stop_call' in later and 'start_call' in later[later.index('stop_call'):]:
+            out.probes['restarted_after_the_loop_died'] = 1
     stop_seqs = [e[0] for e in ev if e[2] == 'stop_call']
     for sq in stop_seqs:
         # stop while an emission is being handled
